@@ -280,6 +280,11 @@ package pilosa
 
 //@ contract (*fragment).unprotectedClearBit props C07,C10,C12,C28
 //@   requires fragOK(f) && rowID < 17592186044415
+// as for unprotectedSetBit; removal additionally needs singleOK on the target container
+//@   requires bmWF(f.storage) && bmSep(f.storage) && coupled(f.storage)
+//@   requires cm(f.storage, bitPos(rowID, columnID) / 65536) != nil ==> roomOK(cm(f.storage, bitPos(rowID, columnID) / 65536))
+//@   requires cm(f.storage, bitPos(rowID, columnID) / 65536) != nil ==> singleOK(cm(f.storage, bitPos(rowID, columnID) / 65536))
+//@   ensures err == nil ==> bmWF(f.storage) && bmSep(f.storage) && coupled(f.storage)
 //@   ensures err == nil ==> !f.storage.$set[bitPos(rowID, columnID)] && (changed <==> old(f.storage.$set[bitPos(rowID, columnID)]))
 //@   ensures err == nil ==> (forall x :: x != bitPos(rowID, columnID) ==> (f.storage.$set[x] <==> old(f.storage.$set[x])))
 //@   ensures err != nil ==> !changed && (forall x :: f.storage.$set[x] <==> old(f.storage.$set[x]))
